@@ -17,7 +17,7 @@ def _choice(rng, xs):
 def change_score(rng, p, allow_user=True):
     """(spec or None, min_size)"""
     opts = ["none", "CUSUM", "L2Cost", "GaussianVarCost", "L1Cost"] + (
-        ["Hash", "HashMV", "GaussianCovCost"] if allow_user else [])
+        ["Hash", "HashMV", "GaussianCovCost", "LazySSE"] if allow_user else [])
     k = _choice(rng, opts)
     if k == "GaussianCovCost":
         return S("GaussianCovCost", param=None), p + 1
@@ -33,13 +33,15 @@ def change_score(rng, p, allow_user=True):
     if k == "GaussianVarCost":
         return S("GaussianVarCost", param=None), 2
     if k == "L1Cost":
-        return S("ChangeScore", cost=S("L1Cost", param=None)), 1
+        return S("ChangeScore", cost=S("L1Cost", param=None, multivariate=bool(allow_user and rng.random() < 0.3))), 1
+    if k == "LazySSE":  # minimal user cost that reads the inherited _X (no _fit of its own)
+        return S("ChangeScore", cost=S("LazySSECost", param=None)), 1
     return S("HashChangeScore", seed=int(rng.integers(1000)), modulus=int(_choice(rng, [3, 7, 13])),
              minsize=1, signed=bool(rng.random() < 0.4)), 1
 
 
 def pelt(rng, p, dense_events):
-    k = _choice(rng, ["none", "L2Cost", "GaussianVarCost", "L1Cost", "ClosureTableCost", "L2fixed"])
+    k = _choice(rng, ["none", "L2Cost", "GaussianVarCost", "L1Cost", "ClosureTableCost", "L2fixed", "LazySSECost"])
     msl = int(rng.integers(1, 6))
     if k == "none":
         cost = None
@@ -49,11 +51,17 @@ def pelt(rng, p, dense_events):
         cost, msl = S("GaussianVarCost", param=None), max(msl, 2)
     elif k == "L1Cost":
         cost = S("L1Cost", param=None)
+        if rng.random() < 0.3:
+            cost["kw"]["multivariate"] = True  # declared multivariate: one output column, min size 1
     elif k == "L2fixed":
         cost = S("L2Cost", param=0.0)
+    elif k == "LazySSECost":
+        cost = S("LazySSECost", param=None)
     else:
         cost = S("ClosureTableCost", seed=int(rng.integers(1000)), maxinc=int(rng.integers(1, 4)),
                  zero_prob=float(_choice(rng, [0.3, 0.6])), offset=int(_choice(rng, [0, 0, 2, 5])))
+        if rng.random() < 0.3:
+            cost["kw"]["multivariate"] = True
     scales = [0.0, 0.02, 0.1, 0.5, 1.0] if dense_events else [0.0, 0.1, 0.5, 1.0, 2.0, 5.0]
     return S("PELT", cost=cost, penalty_scale=float(_choice(rng, scales)), min_segment_length=msl), 2 * msl
 
@@ -126,7 +134,7 @@ def mvcapa(rng, p, dense_events):
 
 
 def cbs(rng, p, dense_events):
-    k = _choice(rng, ["none", "L2Cost", "GaussianVarCost", "Hash", "L2local", "HashMV"])
+    k = _choice(rng, ["none", "L2Cost", "GaussianVarCost", "Hash", "L2local", "HashMV", "LazyLocal"])
     msl = int(rng.integers(1, 5))
     if k == "HashMV":
         k = "Hash"
@@ -141,6 +149,8 @@ def cbs(rng, p, dense_events):
         sc, msl = S("GaussianVarCost", param=None), max(msl, 2)
     elif k == "L2local":
         sc = S("LocalAnomalyScore", cost=S("L2Cost", param=None))
+    elif k == "LazyLocal":
+        sc = S("LocalAnomalyScore", cost=S("LazySSECost", param=None))
     else:
         sc = S("HashLocalAnomalyScore", seed=int(rng.integers(1000)), modulus=int(_choice(rng, [3, 7, 13])),
                multivariate=mv, signed=bool(rng.random() < 0.4))
